@@ -2163,6 +2163,677 @@ fn scenario_claim_leak(seed: u64, root: &Path, t: &mut Trace, ctr: &mut Counters
 	ok
 }
 
+
+// ---------------------------------------------------------------------------------------------
+// tx cases: ONE multitree column, MULTI-OPERATION tree transactions with address REUSE, crash,
+// recovery from the log FILES computed by the model (driver command `c02xt`,
+// lean/Pdb/Model/C02xTxDriver.lean; theorems lean/Pdb/Props/C02xTx.lean).  The recovered prefix is
+// not supplied to the model: the `c02xt files` line carries the log files of the crash image (file
+// number -> ids of the complete records, read from the image), the model runs the real recovery
+// algorithm on them and must answer the prefix length and the number of LEAKED slots (finding
+// F19) that this harness OBSERVES with its own oracle (logical forest snapshots; entry count of the
+// real column minus the live nodes and roots of the matching snapshot).
+// ---------------------------------------------------------------------------------------------
+
+#[derive(Clone, Default)]
+struct TxWorld {
+	/// arena of logical nodes: (data, children as arena ids)
+	arena: Vec<(Vec<u8>, Vec<usize>)>,
+	/// live roots: key -> (data, children, reference count)
+	roots: BTreeMap<Vec<u8>, (Vec<u8>, Vec<usize>, u32)>,
+}
+
+impl TxWorld {
+	fn render_node(&self, id: usize, out: &mut String) {
+		let (d, cs) = &self.arena[id];
+		out.push('(');
+		out.push_str(&raw_tok(d));
+		for c in cs {
+			out.push(' ');
+			self.render_node(*c, out);
+		}
+		out.push(')');
+	}
+	fn render(&self, key: &[u8]) -> String {
+		match self.roots.get(key) {
+			None => "none".into(),
+			Some((d, cs, _)) => {
+				let mut s = format!("some ({}", raw_tok(d));
+				for c in cs {
+					s.push(' ');
+					self.render_node(*c, &mut s);
+				}
+				s.push(')');
+				s
+			},
+		}
+	}
+	/// live node slots (reachable from a live root, shared nodes once) + root entries
+	fn entries(&self) -> u64 {
+		let mut seen = std::collections::BTreeSet::new();
+		let mut stack: Vec<usize> = self.roots.values().flat_map(|r| r.1.iter().copied()).collect();
+		while let Some(x) = stack.pop() {
+			if seen.insert(x) {
+				stack.extend(self.arena[x].1.iter().copied());
+			}
+		}
+		seen.len() as u64 + self.roots.len() as u64
+	}
+}
+
+/// a generated tree: New(data, children) | Existing(arena id, path from a live root)
+#[derive(Clone)]
+enum TxRef {
+	New(Vec<u8>, Vec<TxRef>),
+	Existing(usize, Vec<u8>, Vec<usize>),
+}
+
+#[derive(Clone)]
+enum TxOp {
+	Insert(Vec<u8>, Vec<u8>, Vec<TxRef>),
+	Ref(Vec<u8>),
+	Deref(Vec<u8>),
+}
+
+fn tx_gen_children(rng: &mut Rng, depth: u32, ctrn: &mut u64, shareable: &[(usize, Vec<u8>, Vec<usize>)], budget: &mut i32) -> Vec<TxRef> {
+	let n = if depth == 0 { 0 } else { rng.below(4) };
+	let mut v = vec![];
+	for _ in 0..n {
+		if *budget <= 0 {
+			break
+		}
+		*budget -= 1;
+		if !shareable.is_empty() && rng.chance(1, 5) {
+			let (id, k, p) = rng.pick(shareable).clone();
+			v.push(TxRef::Existing(id, k, p));
+		} else {
+			*ctrn += 1;
+			let len = 1 + rng.below(30) as usize;
+			let mut d = format!("d{}", *ctrn).into_bytes();
+			while d.len() < len {
+				d.push(b'x');
+			}
+			let cs = tx_gen_children(rng, depth - 1, ctrn, shareable, budget);
+			v.push(TxRef::New(d, cs));
+		}
+	}
+	v
+}
+
+fn tx_tokens(data: &[u8], cs: &[TxRef], out: &mut Vec<String>) {
+	out.push(format!("n{}:{}", cs.len(), raw_tok(data)));
+	for c in cs {
+		match c {
+			TxRef::New(d, cs2) => tx_tokens(d, cs2, out),
+			TxRef::Existing(_, k, p) => {
+				let mut s = format!("@{}", hex(k));
+				for i in p {
+					s.push_str(&format!("/{}", i));
+				}
+				out.push(s);
+			},
+		}
+	}
+}
+
+fn tx_to_real(db: &Db, c: &TxRef) -> Result<parity_db::NodeRef, String> {
+	use parity_db::{NewNode, NodeRef};
+	match c {
+		TxRef::New(d, cs) => {
+			let mut children = vec![];
+			for x in cs {
+				children.push(tx_to_real(db, x)?);
+			}
+			Ok(NodeRef::New(NewNode { data: d.clone(), children }))
+		},
+		TxRef::Existing(_, k, p) => {
+			// the real address of the node at path `p` below root `k`, as readable now
+			let addr = with_reader(db, 0, k, |rd| -> Result<u64, String> {
+				let (_, cs) = rd.root(k)?.ok_or_else(|| "existing: no root".to_string())?;
+				let mut a = *cs.get(p[0]).ok_or_else(|| "existing: bad path".to_string())?;
+				for i in &p[1..] {
+					let (_, cs2) = rd.node(a)?.ok_or_else(|| "existing: no node".to_string())?;
+					a = *cs2.get(*i).ok_or_else(|| "existing: bad path".to_string())?;
+				}
+				Ok(a)
+			})??;
+			Ok(NodeRef::Existing(addr))
+		},
+	}
+}
+
+fn tx_add(w: &mut TxWorld, c: &TxRef) -> usize {
+	match c {
+		TxRef::New(d, cs) => {
+			let kids: Vec<usize> = cs.iter().map(|x| tx_add(w, x)).collect();
+			w.arena.push((d.clone(), kids));
+			w.arena.len() - 1
+		},
+		TxRef::Existing(id, _, _) => *id,
+	}
+}
+
+struct TxSut {
+	db: Option<Db>,
+	dir: PathBuf,
+	queued: usize,
+	logged: usize,
+	files: Vec<usize>,
+	enacted: usize,
+	log_sizes: BTreeMap<String, u64>,
+	file_recs: BTreeMap<String, Vec<u64>>,
+	synced_len: BTreeMap<String, u64>,
+}
+
+impl TxSut {
+	fn db(&self) -> &Db {
+		self.db.as_ref().unwrap()
+	}
+	fn log_files(&self) -> Vec<(String, u64)> {
+		let mut v = vec![];
+		for e in std::fs::read_dir(&self.dir).unwrap() {
+			let e = e.unwrap();
+			let n = e.file_name().to_string_lossy().to_string();
+			if n.starts_with("log") && n != "lock" {
+				v.push((n, e.metadata().unwrap().len()));
+			}
+		}
+		v
+	}
+	/// which log file grew (a record was appended), which were reclaimed
+	fn scan(&mut self, appended: bool) {
+		let files = self.log_files();
+		let names: std::collections::BTreeSet<String> = files.iter().map(|x| x.0.clone()).collect();
+		self.file_recs.retain(|n, _| names.contains(n));
+		for (n, l) in files {
+			let old = self.log_sizes.get(&n).copied().unwrap_or(0);
+			if l < old || l == 0 {
+				self.file_recs.remove(&n);
+			}
+			if appended && l > old {
+				if old == 0 {
+					self.file_recs.remove(&n);
+				}
+				self.file_recs.entry(n.clone()).or_default().push(l);
+			}
+			self.log_sizes.insert(n, l);
+		}
+	}
+	fn abandon(&mut self) {
+		if let Some(db) = self.db.take() {
+			db.verif_store_err(Err(parity_db::Error::Io(std::io::Error::new(std::io::ErrorKind::Other, "abandoned by harness"))));
+			let _ = std::panic::catch_unwind(std::panic::AssertUnwindSafe(move || drop(db)));
+		}
+	}
+}
+
+fn tx_case(seed: u64, root: &Path, t: &mut Trace, ctr: &mut Counters, prop: &str) -> bool {
+	use parity_db::NewNode;
+	let mut rng = Rng::new(seed ^ 0x7478_6361_7365);
+	let kind = if rng.chance(1, 2) { CK::MtRc } else { CK::MtPlain };
+	let cfg = Cfg { cols: vec![kind], comp: vec![CompressionType::NoCompression], salt: [9u8; 32] };
+	t.begin_case(&format!("seed={} tx-case cfg={}", seed, cfg.describe()));
+	t.op(&format!("c02xt init {}", cfg.describe()), "ok");
+	ctr.inc("tx.cases");
+	let dir = fresh_dir(root, &format!("c02xt-{}", seed));
+	let db = Db::open_or_create(&cfg.options(&dir)).expect("create");
+	let mut sut = TxSut {
+		db: Some(db),
+		dir: dir.clone(),
+		queued: 0,
+		logged: 0,
+		files: vec![],
+		enacted: 0,
+		log_sizes: Default::default(),
+		file_recs: Default::default(),
+		synced_len: Default::default(),
+	};
+	let mut ok = true;
+	let mut nontrivial = false;
+	let mut w = TxWorld::default();
+	let mut snaps: Vec<TxWorld> = vec![w.clone()];
+	let mut keys: Vec<Vec<u8>> = vec![];
+	let mut nodectr = 0u64;
+	let mut keyctr = 0u64;
+	let mut seen_addr: BTreeMap<u64, Vec<u8>> = Default::default();
+	let crashes = 1 + rng.below(2);
+	let mut to_clean: Vec<PathBuf> = vec![dir.clone()];
+	for epoch in 0..=crashes {
+		let ntx = if epoch == 0 { 4 + rng.below(7) } else { 2 + rng.below(4) };
+		for _ in 0..ntx {
+			// ---- generate one transaction (legal: DerefApart, DerefLive, LegalInOrder) ----
+			let mut ops: Vec<TxOp> = vec![];
+			let mut touched: std::collections::BTreeSet<Vec<u8>> = Default::default();
+			let extra = if rng.chance(3, 5) { 1 + rng.below(3) } else { 0 };
+			let live: Vec<Vec<u8>> = w.roots.keys().cloned().collect();
+			// dereferences / references first in the choice, positions shuffled below
+			for _ in 0..extra {
+				match rng.below(4) {
+					0 | 1 if !live.is_empty() => {
+						let k = rng.pick(&live).clone();
+						if touched.insert(k.clone()) {
+							ops.push(TxOp::Deref(k));
+						}
+					},
+					2 if !live.is_empty() && kind == CK::MtRc => {
+						let k = rng.pick(&live).clone();
+						if touched.insert(k.clone()) {
+							ops.push(TxOp::Ref(k));
+						}
+					},
+					_ => {},
+				}
+			}
+			// nodes that may be shared: children (depth 1, 2) of live trees not touched by this tx
+			let mut shareable: Vec<(usize, Vec<u8>, Vec<usize>)> = vec![];
+			for (k, (_, cs, _)) in &w.roots {
+				if touched.contains(k) {
+					continue
+				}
+				for (i, c) in cs.iter().enumerate() {
+					shareable.push((*c, k.clone(), vec![i]));
+					for (j, c2) in w.arena[*c].1.iter().enumerate() {
+						shareable.push((*c2, k.clone(), vec![i, j]));
+					}
+				}
+			}
+			let ninserts = 1 + if rng.chance(1, 4) { 1 } else { 0 };
+			for _ in 0..ninserts {
+				keyctr += 1;
+				let k = format!("key{}", keyctr).into_bytes();
+				keys.push(k.clone());
+				nodectr += 1;
+				let d = format!("r{}", nodectr).into_bytes();
+				let mut budget = 6;
+				let depth = 1 + rng.below(2) as u32;
+				let cs = tx_gen_children(&mut rng, depth, &mut nodectr, &shareable, &mut budget);
+				let pos = rng.below(ops.len() as u64 + 1) as usize;
+				ops.insert(pos, TxOp::Insert(k, d, cs));
+			}
+			if ops.len() > 1 {
+				ctr.inc("tx.ops.multi");
+			}
+			ctr.inc(&format!("tx.ops.per_tx.{}", ops.len()));
+			// ---- model line + real commit ----
+			let mut line = String::from("c02xt commit");
+			let mut real: Vec<(u8, Operation<Vec<u8>, Vec<u8>>)> = vec![];
+			let mut gen_err = None;
+			for op in &ops {
+				match op {
+					TxOp::Insert(k, d, cs) => {
+						let mut toks = vec![];
+						tx_tokens(d, cs, &mut toks);
+						line.push_str(&format!(" 0:insert:{}:{} {}", hex(k), toks.len(), toks.join(" ")));
+						let mut children = vec![];
+						for c in cs {
+							match tx_to_real(sut.db(), c) {
+								Ok(x) => children.push(x),
+								Err(e) => gen_err = Some(e),
+							}
+						}
+						real.push((0u8, Operation::InsertTree(k.clone(), NewNode { data: d.clone(), children })));
+						ctr.inc("tx.op.insert");
+					},
+					TxOp::Ref(k) => {
+						line.push_str(&format!(" 0:reftree:{}", hex(k)));
+						real.push((0u8, Operation::ReferenceTree(k.clone())));
+						ctr.inc("tx.op.reftree");
+					},
+					TxOp::Deref(k) => {
+						line.push_str(&format!(" 0:dereftree:{}", hex(k)));
+						real.push((0u8, Operation::DereferenceTree(k.clone())));
+						ctr.inc("tx.op.dereftree");
+					},
+				}
+			}
+			if let Some(e) = gen_err {
+				t.oracle_fail(prop, &format!("tx-case: cannot resolve an Existing child on the real Db: {}", e));
+				ok = false;
+				break
+			}
+			let r = sut.db().commit_changes(real);
+			t.op(&line, &res(&r));
+			if r.is_err() {
+				t.oracle_fail(prop, "tx-case: a legal transaction was rejected");
+				ok = false;
+				break
+			}
+			sut.queued += 1;
+			// address reuse, observed on the real Db: a node address that held another node before
+			for op in &ops {
+				if let TxOp::Insert(k, _, _) = op {
+					let mut reused = 0u64;
+					let _ = with_reader(sut.db(), 0, k, |rd| {
+						if let Ok(Some((_, cs))) = rd.root(k) {
+							let mut stack = cs;
+							while let Some(a) = stack.pop() {
+								if let Ok(Some((d, cs2))) = rd.node(a) {
+									match seen_addr.get(&a) {
+										Some(old) if *old != d => reused += 1,
+										_ => {},
+									}
+									seen_addr.insert(a, d);
+									stack.extend(cs2);
+								}
+							}
+						}
+					});
+					if reused > 0 {
+						ctr.inc("tx.reuse.inserts_with_reused_address");
+						for _ in 0..reused {
+							ctr.inc("tx.reuse.addresses");
+						}
+					}
+				}
+			}
+			// oracle: the transaction applied atomically, in the order given (legal transactions
+			// are inside DerefApart: planning order = order given)
+			for op in &ops {
+				match op {
+					TxOp::Insert(k, d, cs) => {
+						let kids: Vec<usize> = cs.iter().map(|c| tx_add(&mut w, c)).collect();
+						w.roots.insert(k.clone(), (d.clone(), kids, 1));
+					},
+					TxOp::Ref(k) =>
+						if let Some(e) = w.roots.get_mut(k) {
+							e.2 += 1;
+						},
+					TxOp::Deref(k) => {
+						let gone = match w.roots.get_mut(k) {
+							Some(e) if e.2 > 1 => {
+								e.2 -= 1;
+								false
+							},
+							Some(_) => true,
+							None => false,
+						};
+						if gone {
+							w.roots.remove(k);
+						}
+					},
+				}
+			}
+			snaps.push(w.clone());
+			// ---- pipeline steps ----
+			let choice = rng.below(8);
+			let steps: &[&str] = match choice {
+				0 | 1 => &[],
+				2 | 3 => &["process"],
+				4 => &["process", "flush"],
+				5 => &["process", "flush", "enact"],
+				6 => &["process", "process", "flush"],
+				_ => &["flush", "enact"],
+			};
+			for st in steps {
+				match *st {
+					"process" => {
+						if sut.queued == 0 {
+							continue
+						}
+						let r = sut.db().process_commits();
+						sut.scan(true);
+						sut.queued -= 1;
+						sut.logged += 1;
+						t.op("c02xt process", &res(&r));
+						ctr.inc("tx.step.process");
+						if r.is_err() {
+							ok = false;
+						}
+					},
+					"flush" => {
+						let r = sut.db().flush_logs();
+						sut.scan(false);
+						if sut.logged > 0 {
+							sut.files.push(sut.logged);
+							sut.logged = 0;
+						}
+						sut.synced_len = sut.log_sizes.clone();
+						t.op("c02xt flush", &res(&r));
+						ctr.inc("tx.step.flush");
+						if r.is_err() {
+							ok = false;
+						}
+					},
+					_ => {
+						if sut.files.is_empty() {
+							continue
+						}
+						let r = sut.db().enact_logs();
+						let k = sut.files.remove(0);
+						sut.enacted += k;
+						let r2 = sut.db().clean_logs();
+						sut.scan(false);
+						t.op("c02xt enact", &match &r {
+							Ok(_) => format!("ok records={}", k),
+							Err(e) => format!("err:{}", err_kind(e)),
+						});
+						ctr.inc("tx.step.enact");
+						if r.is_err() || r2.is_err() {
+							ok = false;
+						}
+					},
+				}
+			}
+			if !ok {
+				t.oracle_fail(prop, "tx-case: a fault-free step failed");
+				break
+			}
+		}
+		if !ok || epoch == crashes {
+			break
+		}
+		// ---- crash point ----
+		// in 2 of 5 crash points the crash strikes INSIDE enact_logs / flush_logs (fault injector):
+		// the image then holds a partially enacted record (crash (j, n) with j > 0), the log
+		// files are intact; the model state is the one BEFORE the step
+		let mut img_taken: Option<PathBuf> = None;
+		if rng.chance(2, 5) {
+			let step = if !sut.files.is_empty() && rng.chance(2, 3) { "enact" } else { "flush" };
+			let idx = rng.below(10) as usize;
+			arm(idx);
+			let r = {
+				let db = sut.db();
+				std::panic::catch_unwind(std::panic::AssertUnwindSafe(|| if step == "enact" { db.enact_logs() } else { db.flush_logs() }))
+			};
+			disarm();
+			match r {
+				Err(_) => {
+					t.oracle_fail(prop, &format!("tx-case: {} panicked under an I/O fault at file operation {}", step, idx));
+					ok = false;
+					break
+				},
+				Ok(Ok(())) => {
+					ctr.inc(&format!("tx.fault.not_reached.{}", step));
+					if step == "enact" {
+						let k = sut.files.remove(0);
+						sut.enacted += k;
+						let _ = sut.db().clean_logs();
+						sut.scan(false);
+						t.op("c02xt enact", &format!("ok records={}", k));
+					} else {
+						sut.scan(false);
+						if sut.logged > 0 {
+							sut.files.push(sut.logged);
+							sut.logged = 0;
+						}
+						sut.synced_len = sut.log_sizes.clone();
+						t.op("c02xt flush", "ok");
+					}
+				},
+				Ok(Err(e)) => {
+					ctr.inc(&format!("tx.crash.inside.{}", step));
+					ctr.inc(&format!("tx.crash.inside.{}.at.{:02}", step, idx));
+					t.comment(&format!("crash inside {} at file operation {}: {}", step, idx, err_kind(&e)));
+					let img = fresh_dir(root, &format!("c02xt-{}-img{}", seed, epoch));
+					copy_dir(&sut.dir, &img);
+					img_taken = Some(img);
+				},
+			}
+		}
+		t.op(
+			"c02xt stages",
+			&format!("queued={} logged={} flushed={} enacted={}", sut.queued, sut.logged + sut.files.iter().sum::<usize>(), sut.files.iter().sum::<usize>(), sut.enacted),
+		);
+		ctr.inc("tx.crash_points");
+		if sut.queued > 0 || sut.logged > 0 {
+			nontrivial = true;
+		}
+		let inside = img_taken.is_some();
+		let img = match img_taken {
+			Some(i) => i,
+			None => {
+				let i = fresh_dir(root, &format!("c02xt-{}-img{}", seed, epoch));
+				copy_dir(&sut.dir, &i);
+				i
+			},
+		};
+		let _ = std::fs::remove_file(img.join("lock"));
+		let cut = rng.chance(1, 2);
+		if cut {
+			let kept = cut_tails(&img, &sut.synced_len, &mut rng);
+			ctr.inc(if !kept.is_empty() { "tx.crash.cut_tail" } else if inside { "tx.crash.inside_step" } else { "tx.crash.boundary" });
+		} else {
+			ctr.inc(if inside { "tx.crash.inside_step" } else { "tx.crash.boundary" });
+		}
+		// the log files of the image with the ids of their complete records
+		let mut fl: Vec<(u32, String)> = vec![];
+		for e in std::fs::read_dir(&img).unwrap() {
+			let e = e.unwrap();
+			let n = e.file_name().to_string_lossy().to_string();
+			if !n.starts_with("log") {
+				continue
+			}
+			let num: u32 = match n[3..].parse() {
+				Ok(x) => x,
+				Err(_) => continue,
+			};
+			let len = e.metadata().unwrap().len();
+			if len < 9 {
+				continue
+			}
+			let bytes = std::fs::read(e.path()).unwrap();
+			let mut ids: Vec<String> = vec![];
+			let mut start = 0u64;
+			for end in sut.file_recs.get(&n).cloned().unwrap_or_default() {
+				if end <= len && start + 9 <= len {
+					let s0 = start as usize;
+					ids.push(u64::from_le_bytes(bytes[s0 + 1..s0 + 9].try_into().unwrap()).to_string());
+					start = end;
+				} else {
+					break
+				}
+			}
+			fl.push((num, if ids.is_empty() { "-".to_string() } else { ids.join(",") }));
+		}
+		fl.sort();
+		let files_line = format!("c02xt files{}", fl.iter().map(|(n, i)| format!(" {}:{}", n, i)).collect::<String>());
+		let accepted = snaps.len() - 1;
+		sut.abandon();
+		match std::panic::catch_unwind(std::panic::AssertUnwindSafe(|| Db::open(&cfg.options(&img)))) {
+			Ok(Ok(db)) => {
+				sut.db = Some(db);
+				sut.dir = img.clone();
+				to_clean.push(img.clone());
+				sut.log_sizes.clear();
+				sut.file_recs.clear();
+				sut.synced_len.clear();
+				sut.scan(false);
+				// observed forest
+				let mut obs: Vec<String> = vec![];
+				for k in &keys {
+					obs.push(with_reader(sut.db(), 0, k, |rd| render_raw(rd, k)).and_then(|x| x).unwrap_or_else(|e| format!("read-error {}", e)));
+				}
+				let lo = sut.enacted + sut.files.iter().sum::<usize>();
+				let matches: Vec<usize> = (0..snaps.len()).filter(|j| keys.iter().zip(obs.iter()).all(|(k, o)| snaps[*j].render(k) == *o)).collect();
+				let n = sut.db().get_num_column_value_entries(0);
+				if matches.len() != 1 {
+					t.oracle_fail(prop, &format!("tx-case: the recovered forest is the forest of {} prefixes of the {} accepted transactions (expected exactly one)", matches.len(), accepted));
+					t.op(&files_line, "prefix=? leaked=?");
+					ok = false;
+					break
+				}
+				let m = matches[0];
+				if m < lo {
+					t.oracle_fail(prop, &format!("tx-case: recovered prefix {} loses a synced transaction (synced {})", m, lo));
+					ok = false;
+				}
+				w = snaps[m].clone();
+				snaps.truncate(m + 1);
+				let live = w.entries();
+				let leaked = match &n {
+					Ok(x) if *x >= live => (*x - live).to_string(),
+					Ok(x) => {
+						t.oracle_fail(prop, &format!("tx-case: entry count {} below the live entries {}", x, live));
+						ok = false;
+						"neg".to_string()
+					},
+					Err(_) => "err".to_string(),
+				};
+				t.comment(&format!("crash epoch={} cut={} accepted={} synced={} recovered prefix={} entries={:?} live={}", epoch, cut, accepted, lo, m, n.as_ref().ok(), live));
+				t.op(&files_line, &format!("prefix={} leaked={}", m, leaked));
+				ctr.inc(&format!("tx.prefix.lost.{}", std::cmp::min(accepted - m, 9)));
+				ctr.inc(&format!("tx.leak.observed.{}", leaked));
+				if leaked != "0" && leaked != "err" && leaked != "neg" {
+					ctr.inc("finding.F19.claimed_slots_leaked");
+					t.known(prop, "F19", &format!("CLAIMED-SLOTS-LEAKED tx-case seed={} epoch={}: recovered prefix {} of {} accepted transactions, get_num_column_value_entries = {:?}, live nodes + roots = {}: {} slots claimed by lost transactions stay allocated (predicted exactly by the model: C02xTx_leak_exactly_F19)", seed, epoch, m, accepted, n.as_ref().ok(), live, leaked));
+				}
+				for (k, o) in keys.iter().zip(obs.iter()) {
+					t.op(&format!("c02xt tree 0 {}", hex(k)), o);
+				}
+				t.op("c02xt count 0", &match &n {
+					Ok(n) => n.to_string(),
+					Err(e) => format!("err:{}", err_kind(e)),
+				});
+				sut.queued = 0;
+				sut.logged = 0;
+				sut.files.clear();
+				sut.enacted = m;
+			},
+			_ => {
+				t.op(&files_line, "open-failed");
+				t.oracle_fail(prop, "tx-case: recovery open failed");
+				ok = false;
+				break
+			},
+		}
+	}
+	// final observation of the continued database
+	if ok && sut.db.is_some() {
+		// drain the queue first: a queued DereferenceTree is not visible to readers
+		while sut.queued > 0 {
+			let r = sut.db().process_commits();
+			sut.scan(true);
+			sut.queued -= 1;
+			sut.logged += 1;
+			t.op("c02xt process", &res(&r));
+		}
+		for k in &keys {
+			let o = with_reader(sut.db(), 0, k, |rd| render_raw(rd, k)).and_then(|x| x).unwrap_or_else(|e| format!("read-error {}", e));
+			if o != w.render(k) {
+				t.oracle_fail(prop, &format!("tx-case: tree {} reads {} but the oracle forest has {}", hex(k), o, w.render(k)));
+				ok = false;
+			}
+			t.op(&format!("c02xt tree 0 {}", hex(k)), &o);
+		}
+		let n = sut.db().get_num_column_value_entries(0);
+		t.op("c02xt count 0", &match &n {
+			Ok(n) => n.to_string(),
+			Err(e) => format!("err:{}", err_kind(e)),
+		});
+	}
+	sut.abandon();
+	for d in to_clean {
+		let _ = std::fs::remove_dir_all(&d);
+	}
+	ctr.inc("cases");
+	if nontrivial {
+		ctr.inc("cases.nontrivial");
+		ctr.inc("tx.cases.nontrivial");
+	}
+	t.end_case(nontrivial);
+	ok
+}
+
 pub fn run(seeds: &[u64], thorough: bool, root: &Path, t: &mut Trace, ctr: &mut Counters, prop: &str) -> u64 {
 	let mut fails = 0;
 	for s in seeds {
@@ -2177,6 +2848,19 @@ pub fn run(seeds: &[u64], thorough: bool, root: &Path, t: &mut Trace, ctr: &mut 
 			Err(_) => {
 				fails += 1;
 				t.oracle_fail(prop, &format!("panic while running case seed={}", s));
+				t.end_case(true);
+			},
+		}
+		let r = std::panic::catch_unwind(std::panic::AssertUnwindSafe(|| tx_case(*s, root, t, ctr, prop)));
+		match r {
+			Ok(true) => {},
+			Ok(false) => {
+				fails += 1;
+				t.comment(&format!("FAILED-CASE seed={} (tx-case)", s));
+			},
+			Err(_) => {
+				fails += 1;
+				t.oracle_fail(prop, &format!("panic while running tx-case seed={}", s));
 				t.end_case(true);
 			},
 		}
